@@ -121,7 +121,7 @@ def cost_case(draw, classes=("E", "E", "F"), shapes=("tiny", "tiny", "tiny", "sm
 def e2e_config(draw, front=("single", "single", "joint"), max_N=3, max_W=4, max_K=4, t_range=(30, 120),
                limits=(1, 2, 3, 5, 30), betas=(0.0, 1.0, 10.0, 100.0, 1000.0), lam_forms=("scalar", "scalar", "const_matrix", "random_matrix"),
                beta_forms=("scalar", "scalar", "scalar", "vector"), eps_values=(0,), allow_degenerate=False, scales=False,
-               max_series=6, procs=(1,)):
+               max_series=6, procs=(1,), allow_short=False):
     fr = draw(st.sampled_from(list(front)))
     N = draw(st.integers(1, max_N))
     W = draw(st.integers(1, max_W))
@@ -133,6 +133,13 @@ def e2e_config(draw, front=("single", "single", "joint"), max_N=3, max_W=4, max_
     else:
         per = max(W + K + 2, t_range[0] // 2)
         lengths = [draw(st.integers(per, max(per, t_range[1] // 2))) for _ in range(nser)]
+        if allow_short and nser >= 2:
+            # some series barely longer than the window (stacked length 1..3): the others keep the run viable
+            for i in range(nser):
+                if i != 0 and draw(st.integers(0, 3)) == 0:
+                    lengths[i] = W + draw(st.integers(0, 2))
+            if draw(st.booleans()):
+                lengths = lengths[::-1]
     cfg = {
         "front": fr, "N": N, "W": W, "K": K, "lengths": lengths,
         "regimes": draw(st.integers(1, K)),
